@@ -24,6 +24,7 @@ type node struct {
 	key  string
 	leaf *fieldVal
 	kids []*node
+	ns   bool // zap.Namespace(key): the later fields of the level are nested under key
 }
 
 func parseTree(s string) ([]*node, bool) {
@@ -49,6 +50,13 @@ func parseTree(s string) ([]*node, bool) {
 			n := stack[len(stack)-1]
 			stack = stack[:len(stack)-1]
 			stack[len(stack)-1].kids = append(stack[len(stack)-1].kids, n)
+		case len(p) == 2 && p[0] == "n":
+			k, err := core.UnHex(p[1])
+			if err != nil {
+				return nil, false
+			}
+			top := stack[len(stack)-1]
+			top.kids = append(top.kids, &node{key: k, ns: true})
 		case len(p) == 4 && p[0] == "l":
 			k, err := core.UnHex(p[1])
 			if err != nil {
@@ -75,7 +83,7 @@ func sortedKids(n *node) bool {
 		if i > 0 && !(n.kids[i-1].key < k.key) {
 			return false
 		}
-		if k.leaf == nil && !sortedKids(k) {
+		if k.leaf == nil && !k.ns && !sortedKids(k) {
 			return false
 		}
 	}
@@ -90,6 +98,10 @@ func encTree(ns []*node) string {
 	var walk func(ns []*node)
 	walk = func(ns []*node) {
 		for _, n := range ns {
+			if n.ns {
+				toks = append(toks, "n:"+core.Hex(n.key))
+				continue
+			}
 			if n.leaf != nil {
 				v := "s:" + core.Hex(n.leaf.s)
 				switch n.leaf.kind {
@@ -113,6 +125,9 @@ func encTree(ns []*node) string {
 // zapField builds the field a log site would pass: leaves as in mkField, objects as ObjectMarshalers
 // whose MarshalLogObject adds the children to whatever encoder it is given.
 func zapField(n *node) (zapcore.Field, bool) {
+	if n.ns {
+		return zap.Namespace(n.key), true
+	}
 	if n.leaf != nil {
 		return mkField(n.key, *n.leaf)
 	}
@@ -268,6 +283,9 @@ func fencTables(cfg []cfgEntry, tree []*node) string {
 	var walk func(ns []*node, pre string)
 	walk = func(ns []*node, pre string) {
 		for _, n := range ns {
+			if n.ns {
+				continue
+			}
 			if n.leaf == nil {
 				walk(n.kids, pre+n.key+">")
 				continue
@@ -367,12 +385,20 @@ func fencOracle(o *core.Outcome, cfg []cfgEntry, tree []*node, got map[string]an
 	dump, _ := json.Marshal(got)
 	trivial := true
 	maxDepth := 0
-	var walk func(ns []*node, pre string, depth int, ancestorFiltered *string)
-	walk = func(ns []*node, pre string, depth int, ancestorFiltered *string) {
+	// pre is the VISIBLE path prefix: the nesting of the entry as it is written, which is what the documented
+	// `outer>inner` addressing refers to; underNs tells whether a zap.Namespace contributed to it
+	var walk func(ns []*node, pre string, depth int, ancestorFiltered *string, underNs bool)
+	walk = func(ns []*node, pre string, depth int, ancestorFiltered *string, underNs bool) {
 		if depth > maxDepth {
 			maxDepth = depth
 		}
 		for _, n := range ns {
+			if n.ns {
+				pre += n.key + ">"
+				underNs = true
+				o.Tags = append(o.Tags, "fenc:namespace")
+				continue
+			}
 			path := pre + n.key
 			fs, has := byPath[path]
 			if n.leaf == nil {
@@ -381,7 +407,7 @@ func fencOracle(o *core.Outcome, cfg []cfgEntry, tree []*node, got map[string]an
 					af = &path
 					o.Tags = append(o.Tags, "fenc:filter-on-object/"+fs.kind)
 				}
-				walk(n.kids, path+">", depth+1, af)
+				walk(n.kids, path+">", depth+1, af, underNs)
 				continue
 			}
 			if !has || !hides(fs) {
@@ -402,7 +428,11 @@ func fencOracle(o *core.Outcome, cfg []cfgEntry, tree []*node, got map[string]an
 				if !strings.Contains(string(dump), t) || strings.Contains(fs.value, t) {
 					continue
 				}
-				if ancestorFiltered != nil {
+				if underNs {
+					o.Tags = append(o.Tags, "fenc:namespace-path-ignored")
+					o.Failures = append(o.Failures, core.Failure{Class: "fenc-namespace-path-ignored",
+						What: fmt.Sprintf("the %s filter configured on %q did not run: the field is nested under a zap.Namespace, which the filter encoder does not add to the key path: token %s is in the entry %s", fs.kind, path, t, dump)})
+				} else if ancestorFiltered != nil {
 					afs := byPath[*ancestorFiltered]
 					o.Tags = append(o.Tags, "fenc:nested-filter-bypassed")
 					o.Failures = append(o.Failures, core.Failure{Class: "fenc-object-filter-disables-nested",
@@ -415,7 +445,7 @@ func fencOracle(o *core.Outcome, cfg []cfgEntry, tree []*node, got map[string]an
 			}
 		}
 	}
-	walk(tree, "", 0, nil)
+	walk(tree, "", 0, nil, false)
 	o.Tags = append(o.Tags, "fenc:depth="+strconv.Itoa(maxDepth))
 	if trivial {
 		o.Tags = append(o.Tags, "trivial")
@@ -446,12 +476,26 @@ func genTree(r *core.Rand, depth int, gen func() fieldVal) []*node {
 			out = append(out, &node{key: k, leaf: &v})
 		}
 	}
+	if r.Chance(1, 6) {
+		k := r.Pick([]string{"first_error", "ns", "m"})
+		if !used[k] {
+			out = append(out, &node{key: k, ns: true})
+		}
+	}
 	sort.Slice(out, func(i, j int) bool { return out[i].key < out[j].key })
 	return out
 }
 
 func allPaths(ns []*node, pre string, leaves, objs *[]string) {
+	vis := pre // the visible prefix (namespaces included); pre is the key path the encoder uses
 	for _, n := range ns {
+		if n.ns {
+			vis += n.key + ">"
+			continue
+		}
+		if vis != pre && n.leaf != nil {
+			*leaves = append(*leaves, vis+n.key)
+		}
 		if n.leaf != nil {
 			*leaves = append(*leaves, pre+n.key)
 		} else {
